@@ -148,7 +148,7 @@ def pairs_task(arg):
 # ------------------------------------------------------------------ synthetic tuples: every rule of every period
 SYN = {
     float: [0.0, 0.5, 235.85, 1800.0, 100000.0, -10.0],
-    int: [0, 1, 2, 30, 70],
+    int: [0, 1, 2, 18, 25, 30, 70],
     bool: [False, True],
 }
 
@@ -203,30 +203,38 @@ def synthetic_task(arg):
         info = getattr(func, "__info__", {}) or {}
         if info.get("skip_vectorization"):
             continue
-        s0 = info.get("start_date", datetime.date(1, 1, 1))
-        e0 = info.get("end_date", datetime.date(9999, 12, 31))
-        d = datetime.date(2023, 1, 1)
-        if not (s0 <= d <= e0):
-            d = e0 if e0 < d else s0
-        d = max(d, datetime.date(1985, 1, 1))
-        if d > e0:
+        s0 = max(info.get("start_date", datetime.date(1, 1, 1)), datetime.date(1985, 1, 1))
+        e0 = min(info.get("end_date", datetime.date(9999, 12, 31)), datetime.date(2031, 1, 1))
+        if s0 > e0:
             continue
+        span = (e0 - s0).days
+        cand = [s0, e0] + [s0 + datetime.timedelta(days=span * k // 3) for k in (1, 2)]
+        if s0 <= datetime.date(2023, 1, 1) <= e0:
+            cand.append(datetime.date(2023, 1, 1))
+        rule_dates = sorted({c.replace(month=1, day=1) if s0 <= c.replace(month=1, day=1) else c for c in cand})
+        for d in rule_dates:
+            _synthetic_one(out, name, func, info, d, cap)
+    return out.dump()
+
+
+def _synthetic_one(out, name, func, info, d, cap):
+    if True:
         date_iso = d.isoformat()
         try:
             p, _ = harness.env(date_iso)
         except Exception:  # noqa: BLE001
             out.count("synthetic_env_failed")
-            continue
+            return
         dag_name = info.get("name_in_dag", name)
         try:
             proc = _round_and_partial_parameters_to_functions({dag_name: _vectorize_func(func)}, p, rounding=False)[dag_name]
             raw = _round_and_partial_parameters_to_functions({dag_name: func}, p, rounding=False)[dag_name]
         except Exception:  # noqa: BLE001
             out.count("synthetic_partial_failed")
-            continue
+            return
         args, T = synthetic_tuples(func)
         if not args:
-            continue
+            return
         exp = {}
         with np.errstate(all="ignore"):
             for b in T:
@@ -240,8 +248,8 @@ def synthetic_task(arg):
         T = [t for t in T if t in exp][:cap]
         if len(T) < 2:
             out.count("synthetic_rules_without_usable_tuples")
-            continue
-        out.state(("synthetic", name))
+            return
+        out.state(("synthetic", name, date_iso))
         dk = declared_kind(func)
         kinds = {}
         for a in T:
@@ -271,7 +279,6 @@ def synthetic_task(arg):
                                                                          "dtype_kind": next(iter(kinds)), "synthetic": True},
                           f"{name} ({dag_name}) on {date_iso}: declared kind {dk}, column dtype kind {next(iter(kinds))}")
         out.outcome((name, tuple(sorted(kinds))))
-    return out.dump()
 
 
 def replay(case):
